@@ -1174,9 +1174,13 @@ impl MutableArchive {
             Err(_) => String::new(), // If can't read, start fresh
         };
 
-        // Add new filename if not already present
+        // Add new filename if not already present (compare whole lines: a name that is a
+        // substring of another entry still needs its own line)
         let filename_line = filename.to_string();
-        if !current_content.contains(&filename_line) {
+        if !current_content
+            .lines()
+            .any(|line| line.trim() == filename_line)
+        {
             if !current_content.ends_with('\n') && !current_content.is_empty() {
                 current_content.push('\n');
             }
